@@ -265,6 +265,28 @@ theorem vm_heap_bookkeeping_invariant (md : Vm.Module) (mem stack gcMode : Nat) 
   obtain ⟨fl, il⟩ := hf
   exact ⟨fl, il.chain, il.fl_nodup, il.cur_nodup, fun hsz => il.count hsz, fun x h0 hx => il.exactly_one x h0 hx⟩
 
+/-- **Reads hit allocated cells or stop the machine.**  Every read of a heap cell a handler performs goes through `objOf` (directly or
+through a typed accessor `getInt … getCPtr`): a read that completes found an object in cell `a` and changed nothing; on a free cell, the
+nil cell or an address outside the heap the model crashes (the C code would dereference NULL / fail its assert). -/
+theorem vm_reads_hit_allocated (a : Nat) :
+    Vm.Guard a (Vm.objOf a) ∧ Vm.Guard a (Vm.getInt a) ∧ Vm.Guard a (Vm.getLong a) ∧ Vm.Guard a (Vm.getFloat a) ∧ Vm.Guard a (Vm.getDouble a) ∧
+    Vm.Guard a (Vm.getChar a) ∧ Vm.Guard a (Vm.getStr a) ∧ Vm.Guard a (Vm.getStrRef a) ∧ Vm.Guard a (Vm.getVecRef a) ∧ Vm.Guard a (Vm.getArrRef a) ∧
+    Vm.Guard a (Vm.getVecObj a) ∧ Vm.Guard a (Vm.getArrObj a) ∧ Vm.Guard a (Vm.getFunc a) ∧ Vm.Guard a (Vm.getCPtr a) :=
+  ⟨Vm.guard_objOf a, Vm.guard_getInt a, Vm.guard_getLong a, Vm.guard_getFloat a, Vm.guard_getDouble a, Vm.guard_getChar a, Vm.guard_getStr a,
+   Vm.guard_getStrRef a, Vm.guard_getVecRef a, Vm.guard_getArrRef a, Vm.guard_getVecObj a, Vm.guard_getArrObj a, Vm.guard_getFunc a, Vm.guard_getCPtr a⟩
+
+/-- **Between safe points no cell is freed, and no store lands in a free cell** (the access half of C04, for stores PARTIAL in form).  The
+handler of every instruction of the verifier's effect table (198 opcodes: everything but the frame operations, of which only SLIDE / RET /
+RETHROW run the collector) leaves an object in every cell that held one and keeps `FreeInv`: in particular every cell on the free chain
+afterwards holds no object — a raw `setObj` into a free cell would put one there.  (The logic behind it, `KF`, discharges for every raw
+store the proviso "the target cell holds an object" from the read or the allocation the handler performed just before; a statement
+about each individual store would need an instrumented semantics and is not given.) -/
+theorem vm_touch_allocated_partial (md : Vm.Module) (ins : Vm.Instr) (orc : Vm.Oracle) (p q : Nat) (h : Ver.simpleEffect ins = some (p, q))
+    (vm vm' : Vm.Vm) (hr : (Vm.exec md ins orc).run vm = .ok ((), vm')) :
+    (∀ x, (objAt vm.gc.mem x).isSome = true → (objAt vm'.gc.mem x).isSome = true) ∧ (FreeInv vm.gc → FreeInv vm'.gc) := by
+  obtain ⟨h1, h2⟩ := Vm.exec_kf_table md ins orc p q h vm () vm' hr
+  exact ⟨h1, fun hi => h2 (fun a ha => by cases ha) hi⟩
+
 /-- the hypotheses are met by real runs: `7 + 5` then HALT on a heap of 8 cells with a collection at every safe point is a `RunsTo` run
 from the start machine (4 steps), so its final heap satisfies the invariant; three cells are allocated, four free -/
 def vmExModule : Vm.Module := { code := #[⟨.INT, 7, 0, 0⟩, ⟨.INT, 5, 0, 0⟩, ⟨.OP_ADD_INT, 0, 0, 0⟩, ⟨.HALT, 0, 0, 0⟩, ⟨.UNHANDLED_EXCEPTION, 0, 0, 0⟩], strtab := #[], exctab := #[⟨0, 4⟩, ⟨4294967295, 0⟩], excCount := 1, codeEntry := 0, entryAddr := 0, params := [] }
